@@ -701,7 +701,8 @@ Section Count.
   Proof.
     destruct HS as (Hwf & Hlen & Hsl & Hcells). fold R in Hlen, Hcells.
     induction cells as [|t cells IH]; intros Hok counts Hc.
-    - exists counts. simpl. repeat split; auto. intros x Hx. unfold hits. simpl. lia.
+    - exists counts. simpl. split; [reflexivity|]. split; [assumption|].
+      intros x Hx. unfold hits. simpl. lia.
     - destruct (Hok t (or_introl eq_refl)) as (i & j & -> & Hi & Hj).
       assert (Hok' : cells_ok cells) by (intros t' Ht'; apply Hok; right; assumption).
       simpl. rewrite m_get_ok by lia. simpl. rewrite Hcells by lia. rewrite Hsl.
@@ -712,7 +713,8 @@ Section Count.
         destruct (IH Hok' (upd (nth (j * R + i) s (wild K)) (S (nth (nth (j * R + i) s (wild K)) counts 0)) counts))
           as (counts' & Hrun & Hlen' & Hn).
         { rewrite upd_length. assumption. }
-        exists counts'. repeat split; auto. intros x Hx. rewrite (Hn x Hx).
+        exists counts'. split; [rewrite <- Hsl; exact Hrun|]. split; [exact Hlen'|].
+        intros x Hx. rewrite (Hn x Hx).
         rewrite nth_upd. rewrite Hc. unfold hits. simpl.
         destruct (Nat.ltb_spec (j * R + i) (length s)) as [_|Hbad]; [|lia]. simpl.
         destruct (Nat.eqb_spec (nth (j * R + i) s (wild K)) x) as [E|E].
@@ -720,7 +722,8 @@ Section Count.
           rewrite E. simpl. lia.
         * simpl. reflexivity.
       + destruct (IH Hok' counts Hc) as (counts' & Hrun & Hlen' & Hn).
-        exists counts'. repeat split; auto. intros x Hx. rewrite (Hn x Hx). unfold hits. simpl.
+        exists counts'. split; [rewrite <- Hsl; exact Hrun|]. split; [exact Hlen'|].
+        intros x Hx. rewrite (Hn x Hx). unfold hits. simpl.
         destruct (Nat.ltb_spec (j * R + i) (length s)) as [Hbad|_]; [lia|]. reflexivity.
   Qed.
 
